@@ -395,8 +395,8 @@ def drive_history(ad, rng, nops, commit_only, directed=False):
 
 
 def track_handed(ad, op, out, handed):
-    if op[0] == "ask" and op[2]:
-        handed += out[1]
+    if op[0] == "ask":
+        handed += out[1]        # also suggestions of a non-committing ask: evaluating them is a legal use
     elif op[0] == "tell":
         k = ad.key(ad.point(op[1]))
         handed[:] = [p for p in handed if ad.key(ad.point(p)) != k]
